@@ -424,8 +424,19 @@ def run(ctx, prog, res):
                 continue
             def cls(n):
                 return (n[0], "".join("0" if c.isdigit() else c for c in txt[n[1]:n[2]])[:4] if n[0] in ("daynum", "year", "hour", "extended_hour", "minute", "weeknum", "positive_number", "nth") else "")
+            def presence(m):
+                """Which parts of the rule are there at all (the printer's disambiguation helpers test exactly this)."""
+                sig = []
+                for n_, x_ in m[3]:
+                    if isinstance(x_, tuple) and x_ and x_[0] == "adt":
+                        for n2, x2 in x_[3]:
+                            if isinstance(x2, tuple) and x2 and x2[0] == "list":
+                                sig.append((n2, bool(x2[1])))
+                    elif isinstance(x_, tuple) and x_ and x_[0] == "list":
+                        sig.append((n_, bool(x_[1])))
+                return tuple(sorted(sig))
             heads.setdefault(cls(lv[0]), m_)
-            tails.setdefault(cls(lv[-1]), m_)
+            tails.setdefault((cls(lv[-1]), presence(m_)), m_)
         E_T = RULES + "OpeningHoursExpression"
         ops = M.variants(RULES + "RuleOperator") if (RULES + "RuleOperator") in prog.adts else []
         n_adj, bad_adj = 0, []
